@@ -2,7 +2,7 @@
 R-REGION-RESET."""
 from .. import absint
 from ..engine import Ctx, LIB_CRATES
-from ..facts import callee, op_local, op_place, op_const, pos_line, place_fields
+from ..facts import callee, op_local, op_place, op_const, op_const_int, pos_line, place_fields
 from ..mirutil import Defs, access_path, find_path_edges
 
 CTX_ADT = "jxl_render::RenderContext"
@@ -260,8 +260,171 @@ def main(pid, tier, repo=None):
     ctx = Ctx(pid, tier, configs=("workspace",), repo=repo)
     rule_region_reset(ctx)
     rule_ecshift(ctx)
-    ctx.not_decided("the padding amounts per filter/upsampling/LF level and the group selection (numeric)")
+    rule_epf_pad(ctx)
+    ctx.not_decided("the padding amounts for Gabor / upsampling / chroma upsampling / LF smoothing and the group selection (numeric)")
     return ctx.finish(
-        "Cache invalidation only: a necessary condition for 'requesting regions in any sequence never changes what a later request "
-        "returns'. Decided on MIR for every request history: changing the requested region always reaches reset_cache, which clears "
-        "the loading caches and replaces the render handle of every non-ReferenceOnly frame by a fresh one built for the new region.")
+        "Two structural necessary conditions. (1) Cache invalidation, for 'requesting regions in any sequence never changes what a later "
+        "request returns': changing the requested region always reaches reset_cache, which clears the loading caches and replaces the "
+        "render handle of every non-ReferenceOnly frame by a fresh one built for the new region (decided on MIR for every request "
+        "history). (2) For 'a region render equals the full render': the region handed to the edge-preserving filter is padded by at "
+        "least what the filter steps that run can reach, for every iteration count (R-EPF-PAD: constant propagation over "
+        "pad_color_region / apply_epf and the kernel tables), and extra channels are shifted consistently (R-ECSHIFT).")
+
+
+EPF_ADT = "jxl_frame::filter::EdgePreservingFilter"
+
+
+def rule_epf_pad(ctx):
+    """the region handed to the edge-preserving filter is padded by at least the distance the filter steps that run can reach"""
+    from ..mirutil import const_walk
+    from .. import constval
+    rid = "R-EPF-PAD"
+    ctx.rule(rid, "for each EPF iteration count 1..3: the padding pad_color_region adds for the filter (sum of the Region::pad amounts on "
+                  "the EPF-only part of the function, evaluated by constant propagation with `iters` fixed) is at least the sum, over the "
+                  "filter steps apply_epf runs for that count, of the step's reach = max |kernel offset| + max |distance-patch offset| "
+                  "(read from the constant tables epf_kernel_offsets::<STEP> / epf_dist_offsets::<STEP> return).  With less padding the "
+                  "outermost rows/columns of a cropped render are computed from mirrored samples instead of image samples")
+    cr = ctx.prog.crate("jxl_render")
+    pad_fn = cr.fn("jxl_render::util::pad_color_region")
+    apply_fn = cr.fn("jxl_render::filter::epf::apply_epf")
+    kfn = cr.fn("jxl_render::filter::epf::epf_kernel_offsets")
+    dfn = cr.fn("jxl_render::filter::epf::epf_dist_offsets")
+    adt = ctx.prog.crate("jxl_frame").adts.get(EPF_ADT)
+    for nm, x in (("pad_color_region", pad_fn), ("apply_epf", apply_fn), ("epf_kernel_offsets", kfn), ("epf_dist_offsets", dfn), (EPF_ADT, adt)):
+        if x is None:
+            ctx.anchor_missing(rid, nm)
+            return
+    for g in (pad_fn, apply_fn, kfn, dfn):
+        ctx.seen(g)
+    enabled = next((i for i, v in enumerate(adt["variants"]) if v["name"] == "Enabled"), None)
+    if enabled is None:
+        ctx.anchor_missing(rid, EPF_ADT + "::Enabled")
+        return
+
+    def last_field(p):
+        fl = [e for e in p[1:] if isinstance(e, list) and e[0] == "."]
+        return fl[-1][2] if fl else None
+
+    def table_reach(g, step):
+        """max |component| of the offset table g::<step>() returns"""
+        items = set()
+
+        def on_term(bb, t, e, val_of):
+            for st in g.stmts(bb):
+                if st[0] == "=" and st[2][0] == "use" and st[2][1][0] == "k" and isinstance(st[2][1][1], dict) and st[2][1][1].get("item"):
+                    items.add(st[2][1][1]["item"])
+            return None if t[0] != "call" else False     # a call here is the `panic!()` arm
+
+        const_walk(g, 0, {}, on_term, const_param={"STEP": step})
+        if len(items) != 1:
+            return None
+        pg = cr.fns.get(next(iter(items)))
+        if pg is None:
+            return None
+        vals = []
+        for blk in pg.blocks:
+            for st in blk[0]:
+                if st[0] != "=":
+                    continue
+                rv = st[2]
+                if rv[0] == "use" and rv[1][0] == "k" and isinstance(rv[1][1], dict) and rv[1][1].get("item") in cr.consts:
+                    vals += [x for x in constval.flat(constval.parse(cr.consts[rv[1][1]["item"]]["value"])) if isinstance(x, int)]
+                elif rv[0] == "agg" and rv[1][0] == "tuple":
+                    for o in rv[2]:
+                        k = op_const_int(o)
+                        if k is None:
+                            return None
+                        vals.append(k)
+        return max(abs(x) for x in vals) if vals else None
+
+    reach = {}
+    for step in (0, 1, 2):
+        a, b = table_reach(kfn, step), table_reach(dfn, step)
+        if a is None or b is None:
+            ctx.bad(rid, "reach-not-evaluable:step%d" % step, "cannot read the kernel / distance offset tables of EPF step %d" % step, fn=kfn)
+            return
+        reach[step] = a + b
+    ctx.ok(rid, "step-reach", "reach of steps 0,1,2 = %s (kernel + patch)" % [reach[s] for s in (0, 1, 2)], nontrivial=True, fn=kfn)
+
+    def eval_helper(h, args):
+        rets = set()
+
+        def on_term(bb, t, e, val_of):
+            if t[0] == "ret":
+                rets.add(e.get(0))
+        try:
+            const_walk(h, 0, {i + 1: a for i, a in enumerate(args)}, on_term, limit=4000)
+        except RuntimeError:
+            return None
+        return next(iter(rets)) if len(rets) == 1 else None
+
+    def helper_call(t, e, val_of):
+        c = callee(t)
+        h = (cr.fn(c.get("res") or c["fn"]) or cr.fn(c["fn"])) if c else None
+        if h is None or not t[3] or len(t[3]) != 1 or len(h.blocks) > 200:
+            return
+        args = [val_of(a, e) for a in t[2]]
+        if args and all(a is not None for a in args) and h.local_ty(0) in ("u32", "usize", "i32", "u8", "u64", "isize"):
+            r = eval_helper(h, args)
+            if r is not None:
+                e[t[3][0]] = r
+
+    worst = None
+    for iters in (1, 2, 3):
+        pv = lambda p, iters=iters: iters if last_field(p) == "iters" else None
+        # steps apply_epf runs
+        steps = set()
+
+        def on_apply(bb, t, e, val_of):
+            if t[0] == "call":
+                c = callee(t)
+                if c and c["fn"].startswith("jxl_render::filter::impls::") and c["fn"].split("::")[-1] == "epf" and c.get("args"):
+                    if str(c["args"][0]).isdigit():
+                        steps.add(int(c["args"][0]))
+                helper_call(t, e, val_of)
+
+        const_walk(apply_fn, 0, {}, on_apply, place_value=pv)
+        if not steps or not steps <= {0, 1, 2}:
+            ctx.bad(rid, "steps-not-evaluable:iters%d" % iters, "cannot determine which EPF steps apply_epf runs for iters = %d (found %s)" % (iters, sorted(steps)), fn=apply_fn)
+            return
+        need = sum(reach[s] for s in steps)
+        # padding pad_color_region adds on its EPF-only part
+        sw = None
+        for b, blk in enumerate(pad_fn.blocks):
+            if blk[2] or blk[1][0] != "switch":
+                continue
+            if any(st[0] == "=" and st[2][0] == "discr" and last_field(st[2][1]) == "epf" for st in blk[0]):
+                sw = b
+        if sw is None:
+            ctx.anchor_missing(rid, "the match on restoration_filter.epf in pad_color_region")
+            return
+        t = pad_fn.term(sw)
+        en = next((x for v, x in t[2] if int(v) == enabled), t[3])
+        others = [x for v, x in t[2] if int(v) != enabled] + ([t[3]] if en != t[3] else [])
+        epf_only = pad_fn.reachable(en) | {en}
+        for o in others:
+            epf_only -= pad_fn.reachable(o) | {o}
+        pads = set()
+
+        def on_pad(bb, t, e, val_of):
+            if t[0] == "call":
+                c = callee(t)
+                if c and c["fn"].endswith("region::Region::pad") and bb in epf_only and len(t[2]) == 2:
+                    v = val_of(t[2][1], e)
+                    e["pad"] = None if (v is None or e.get("pad", 0) is None) else e.get("pad", 0) + v
+                else:
+                    helper_call(t, e, val_of)
+            elif t[0] == "ret":
+                pads.add(e.get("pad", 0))
+
+        const_walk(pad_fn, 0, {}, on_pad, place_value=pv, discr=lambda p: enabled if last_field(p) == "epf" else None)
+        if not pads or None in pads:
+            ctx.bad(rid, "pad-not-evaluable:iters%d" % iters, "cannot evaluate the padding pad_color_region adds for EPF with iters = %d" % iters, fn=pad_fn)
+            return
+        got = min(pads)
+        if got >= need:
+            ctx.ok(rid, "pad-covers-reach:iters%d" % iters, "iters = %d: steps %s reach %d, padded by %d" % (iters, sorted(steps), need, got), nontrivial=True, fn=pad_fn)
+        else:
+            ctx.bad(rid, "pad-below-reach:iters%d" % iters, "with %d EPF iteration(s) apply_epf runs steps %s, which read up to %d samples beyond the "
+                    "region, but pad_color_region pads the requested region by only %d: the outermost rows/columns of a cropped render are "
+                    "filtered from mirrored samples and differ from the full render" % (iters, sorted(steps), need, got), fn=pad_fn)
